@@ -12,7 +12,7 @@ from copy import copy
 
 from cocoasm.exceptions import ParseError, TranslationError, OperandTypeError, ValueTypeError
 from cocoasm.instruction import INSTRUCTIONS, CodePackage
-from cocoasm.operands import Operand, BadInstructionOperand
+from cocoasm.operands import Operand, BadInstructionOperand, fit_value
 from cocoasm.values import NumericValue
 
 # C O N S T A N T S ###########################################################
@@ -280,10 +280,14 @@ class Statement(object):
             return
 
         if self.operand.value.is_address_expression():
-            self.code_pkg.additional = self.operand.value.calculate_address_offset(statements)
+            self.code_pkg.additional = fit_value(
+                self.operand.value.calculate_address_offset(statements), self.operand.address_digits()
+            )
 
         if self.operand.value.is_address():
-            self.code_pkg.additional = statements[self.operand.value.int].code_pkg.address
+            self.code_pkg.additional = fit_value(
+                statements[self.operand.value.int].code_pkg.address, self.operand.address_digits()
+            )
 
         if self.code_pkg.additional_needs_resolution:
             if self.operand.is_indexed() and self.operand.left and self.operand.left.is_address_expression():
